@@ -221,7 +221,123 @@ def n1(model: Model, rep: Report):
             bad.append("the tail block after the last split is not yielded")
         rep.check(not bad, "C14.N1", "PauliAdditiveCircuitNoiseFactory.split_instruction_blocks", g.loc, found="; ".join(sorted(set(bad))) or "all instructions, split after TICK, tail yielded",
                   required="every instruction lands in exactly one yielded block", what="instructions are lost between blocks: " + "; ".join(sorted(set(bad))), detail="split")
+    with rep.isolated():
+        block_local_time(model, rep)
     pauli_walk(model, rep)
+
+
+def block_local_time(model: Model, rep: Report):
+    """C14.N4 [block-local]: the idle time of a block depends on this block only (no value carried from earlier blocks)."""
+    P = model.cls("PauliAdditiveCircuitNoiseFactory")
+    f = P.resolve("construct")
+    construct = "PauliAdditiveCircuitNoiseFactory.construct"
+    outer = None
+    for n in ast.walk(f.node):
+        if isinstance(n, ast.For) and any(isinstance(c, ast.Call) and isinstance(c.func, ast.Attribute) and c.func.attr == "split_instruction_blocks" for c in ast.walk(n.iter)):
+            outer = n
+            break
+    if outer is None:
+        raise AnalysisError(f"{construct}: no loop over split_instruction_blocks(..)")
+    t_exprs = [kw.value for c in ast.walk(outer) if isinstance(c, ast.Call) and isinstance(c.func, ast.Attribute) and c.func.attr == "get_pauli_error"
+               for kw in c.keywords if kw.arg == "t"]
+    t_exprs += [c.args[0] for c in ast.walk(outer) if isinstance(c, ast.Call) and isinstance(c.func, ast.Attribute) and c.func.attr == "get_pauli_error" and c.args]
+    if not t_exprs:
+        return  # the walk below reports the missing channel computation
+
+    def loads(e) -> set:
+        bound = {t.id for c in ast.walk(e) if isinstance(c, ast.comprehension) for t in ast.walk(c.target) if isinstance(t, ast.Name)}
+        return {x.id for x in ast.walk(e) if isinstance(x, ast.Name) and isinstance(x.ctx, ast.Load)} - bound
+
+    def stores(t) -> set:
+        return {x.id for x in ast.walk(t) if isinstance(x, ast.Name) and isinstance(x.ctx, ast.Store)}
+    stored_in_loop = {x.id for st in outer.body for x in ast.walk(st) if isinstance(x, ast.Name) and isinstance(x.ctx, ast.Store)}
+    carried: Dict[str, int] = {}
+
+    def read(e, defined, line):
+        for nm in loads(e):
+            if nm in stored_in_loop and nm not in defined:
+                carried.setdefault(nm, line)
+
+    def walk(stmts, defined: set) -> set:
+        for st in stmts:
+            if isinstance(st, ast.Assign):
+                read(st.value, defined, st.lineno)
+                for t in st.targets:
+                    if isinstance(t, ast.Name) or isinstance(t, (ast.Tuple, ast.List)):
+                        defined |= stores(t)
+                    else:
+                        read(t, defined, st.lineno)
+            elif isinstance(st, ast.AnnAssign):
+                if st.value is not None:
+                    read(st.value, defined, st.lineno)
+                    defined |= stores(st.target)
+            elif isinstance(st, ast.AugAssign):
+                read(st.value, defined, st.lineno)
+                if isinstance(st.target, ast.Name):
+                    if st.target.id not in defined:
+                        carried.setdefault(st.target.id, st.lineno)
+                else:
+                    read(st.target, defined, st.lineno)
+            elif isinstance(st, ast.If):
+                read(st.test, defined, st.lineno)
+                d1, d2 = walk(st.body, set(defined)), walk(st.orelse, set(defined))
+                defined |= (d1 & d2)
+            elif isinstance(st, (ast.For, ast.While)):
+                read(st.iter if isinstance(st, ast.For) else st.test, defined, st.lineno)
+                inner = set(defined)
+                if isinstance(st, ast.For):
+                    inner |= stores(st.target)
+                walk(st.body, inner)
+                walk(st.orelse, set(defined))
+            elif isinstance(st, ast.With):
+                for it in st.items:
+                    read(it.context_expr, defined, st.lineno)
+                    if it.optional_vars is not None:
+                        defined |= stores(it.optional_vars)
+                defined |= walk(st.body, set(defined)) - defined
+            elif isinstance(st, ast.Try):
+                walk(st.body, set(defined))
+                for h_ in st.handlers:
+                    walk(h_.body, set(defined))
+                walk(st.orelse, set(defined))
+                defined |= walk(st.finalbody, set(defined)) - defined
+            elif isinstance(st, (ast.FunctionDef, ast.ClassDef)):
+                raise AnalysisError(f"{construct}: a definition inside the block loop; carried values not read")
+            else:
+                for e in ast.iter_child_nodes(st):
+                    if isinstance(e, ast.expr):
+                        read(e, defined, st.lineno)
+        return defined
+    walk(outer.body, stores(outer.target))
+    # names the idle time depends on, through the assignments of the loop body
+    deps_of: Dict[str, set] = {}
+    for st in [x for b in outer.body for x in ast.walk(b)]:
+        if isinstance(st, ast.Assign):
+            for t in st.targets:
+                for nm in stores(t):
+                    deps_of.setdefault(nm, set()).update(loads(st.value))
+        elif isinstance(st, ast.AnnAssign) and st.value is not None:
+            for nm in stores(st.target):
+                deps_of.setdefault(nm, set()).update(loads(st.value))
+        elif isinstance(st, ast.AugAssign):
+            for nm in stores(st.target):
+                deps_of.setdefault(nm, set()).update(loads(st.value) | {nm})
+        elif isinstance(st, ast.For):
+            for nm in stores(st.target):
+                deps_of.setdefault(nm, set()).update(loads(st.iter))
+    deps, todo = set(), [nm for e in t_exprs for nm in loads(e)]
+    while todo:
+        nm = todo.pop()
+        if nm not in deps:
+            deps.add(nm)
+            todo.extend(deps_of.get(nm, ()))
+    bad = sorted(nm for nm in carried if nm in deps)
+    rep.check(not bad, "C14.N4", construct + "[block-local]", f"{f.module.relpath}:{carried[bad[0]] if bad else outer.lineno}",
+              found="; ".join(f"`{nm}` is read at line {carried[nm]} before this block assigns it and is assigned inside the block loop" for nm in bad) or
+              f"t depends on {sorted(deps & stored_in_loop)} -- each assigned afresh per block",
+              required="every value the idle time t is computed from is assigned afresh for each block",
+              what="the idling time of a block depends on a value carried over from the blocks before it (a running maximum / total that is not reset per block): "
+                   "a short block after a long one idles as long as the long one", detail="block-local")
 
 
 def pauli_walk(model: Model, rep: Report):
